@@ -1,6 +1,6 @@
 #!/bin/bash
 # run_against.sh <patch.diff> <ID> [<ID>...]: apply a seeded change to /repo, run the quick checks, undo it.
-PATCH=$1; shift
+PATCH=$(realpath $1); shift
 cd /repo || exit 3
 if [ -n "$(git status --porcelain --untracked-files=no)" ]; then echo "/repo is dirty"; exit 3; fi
 git apply "$PATCH" || { echo "patch does not apply"; exit 3; }
